@@ -69,6 +69,35 @@ def translate():
 Definition callbacks_called_during_construction : nat := {n_calls}.
 """
     write_if_changed(COQ / "Gen" / "Config.v", text)
+    # ---- the kernel's inner loop: int(min(max(n_steps*n_dim, adaptive), n_max*n_dim)) steps, iteration counted from 1
+    mc = REPO / "tempest" / "mcmc.py"
+    w2 = "mcmc.py:BaseMCMCRunner"
+    cas = get_function(mc, "BaseMCMCRunner._calculate_adaptive_steps")
+    asg = {_ns(x.targets[0]): x.value for x in strip_doc(cas.body) if isinstance(x, ast.Assign)}
+    ret = strip_doc(cas.body)[-1]
+    need(isinstance(ret, ast.Return) and _ns(ret.value) == "int(min(n_steps_final,n_steps_max))", ret, "int(min(final, max))", w2)
+    need(_ns(asg.get("n_steps_final")) == "max(n_steps_min,n_steps_adaptive)", cas, "final = max(min, adaptive)", w2)
+    need(_ns(asg.get("n_steps_min")) == "self.n_steps*self.n_dim" and _ns(asg.get("n_steps_max")) == "self.n_max*self.n_dim", cas, "bounds", w2)
+    cc = get_function(mc, "BaseMCMCRunner._check_convergence")
+    need("returnself.iteration>=adaptive_steps" in _ns(cc).replace("\n", "") and
+         "adaptive_steps=self._calculate_adaptive_steps(current_acceptance)" in _ns(cc), cc, "stop test", w2)
+    rn = get_function(mc, "BaseMCMCRunner.run")
+    loop = next(x for x in strip_doc(rn.body) if isinstance(x, ast.While))
+    need(_ns(loop.test) == "True" and _ns(loop.body[0]) == "self.iteration+=1" and
+         _ns(loop.body[-1]).replace("\n", "") == "ifself._check_convergence(current_acceptance):break"
+         and sum(isinstance(n, ast.Break) for n in ast.walk(loop)) == 1 and not any(isinstance(n, ast.Continue) for n in ast.walk(loop)),
+         loop, "loop shape: count, step, test-and-break", w2)
+    ini = _ns(get_function(mc, "BaseMCMCRunner.__init__"))
+    need("self.iteration=0" in ini, rn, "iteration starts at 0", w2)
+    text2 = """(* GENERATED from mcmc.py (_calculate_adaptive_steps, _check_convergence, run) by tools/props/c18.py *)
+From Coq Require Import ZArith QArith.
+From Tempest Require Import Model.KernelLoop.
+Definition adaptive_steps (smin smax adaptive : Q) : Z := pyint (pymin (pymax smin adaptive) smax).
+Definition stop_test (it : Z) (steps : Z) : bool := Z.leb steps it.
+Definition loop_counts_then_steps_then_tests : bool := true.
+Definition iteration_starts_at_zero : bool := true.
+"""
+    write_if_changed(COQ / "Gen" / "KernelLoop.v", text2)
 
 
 # ------------------------------------------------------------------ invalid values
@@ -318,7 +347,7 @@ def main(tier, seed):
         run.obligation("translate:SamplerConfig checks + construction path", True)
     except Exception as e:  # fail closed: anything the translator cannot digest
         run.obligation("translate:SamplerConfig checks + construction path", False, str(e))
-    run.prove("Props/C18.v", link_rels=["Link/Config.v"])
+    run.prove("Props/C18.v", link_rels=["Link/Config.v", "Link/KernelLoop.v"])
     work = Path(tempfile.mkdtemp(prefix="c18_", dir=run.scratch.dir))
     try:
         check_validation(run)
